@@ -439,8 +439,8 @@ Proof. exact generic_image. Qed.
 (* generic_code_roundtrip: the code parses back to the model itself up to name, description and data
    path (which == does not look at), under one guard per open finding: derivatives are texts
    (C12-DERIVATIVES-TEXT) and verbatim values are JSON-stable (C12-JSON-INTKEY) [step_json_ok,
-   column_json_ok, the iie condition]; value_type is the constructor default
-   (C12-GENERIC-VALUE-TYPE); the engine assumption engine_ok (C12-SREPR-DISTRIBUTES). *)
+   column_json_ok, the iie condition]; the engine assumption engine_ok (C12-SREPR-DISTRIBUTES).
+   The value_type guard is gone: convert_model carries value_type over since 7115d86. *)
 Theorem generic_code_roundtrip :
   forall G, engine_ok G -> forall (dumps : pyv -> string) (loads : string -> option pyv) version (m : model G),
     loads (dumps (generic_code_dict G version (generic_convert G m))) =
@@ -449,9 +449,13 @@ Theorem generic_code_roundtrip :
     forallb (step_json_ok G) (m_steps G m) = true ->
     forallb (column_json_ok G) (di_columns G (m_datainfo G m)) = true ->
     (forall x, m_iie G m = Some x -> is_json x = true /\ x <> PNone) ->
-    m_value_type G m = "PREDICTION" ->
     generic_roundtrip G dumps loads version m = Some (strip G m).
 Proof. exact generic_code_roundtrip_lemma. Qed.
+
+(* The conversion itself changes nothing == (or anything else in the model) looks at. *)
+Theorem generic_convert_identity :
+  forall G (m : model G), generic_convert G m = m.
+Proof. exact generic_convert_id. Qed.
 
 (* ... and == cannot tell the read-back model from the original. *)
 Theorem strip_is_equal_for_eq :
